@@ -113,8 +113,12 @@ def run_cli_random(case):
 
 @st.composite
 def strat_cli_random(draw):
-    kind = draw(st.sampled_from(['random-graph', 'random-graph', 'random-family']))
-    if kind == 'random-graph':
+    kind = draw(st.sampled_from(['random-graph', 'random-graph', 'random-family', 'two-random-sources']))
+    if kind == 'two-random-sources':
+        # a graph sampled while the command line is parsed AND a family that draws again while it is built
+        ch = draw(st.sampled_from(['random', 'randomodd', 'randomeven']))
+        cmd = ['tseitin', ch] + draw(argv_gen.simple_spec(random_ok=True, det_ok=draw(st.integers(0, 4)) == 0))
+    elif kind == 'random-graph':
         cmd = draw(argv_gen.graph_command(random_ok=True, det_ok=False))
     else:
         cmd = draw(argv_gen.numeric_random_command())
@@ -185,8 +189,8 @@ SUBCHECKS = [
              rule="every formula sub-command of the catalogue (33 helpers shared by both tools, every option) with parameters giving <=22 variables, graph arguments as harness-written files, random sub-commands under one --seed; cnfgen vs pbgen built in-process (mode='formula'); oracle: pbgen yields a pseudo-Boolean object, same variable count, same names in order, identical complete truth tables; non-trivial: the OPB side has a non-clausal constraint",
              required_labels=[n for n in NAMES] + ['native-cardinality', 'native-equality', 'clausal-only', 'random-family']),
     SubCheck('cli_random', run_cli_random, strategy=strat_cli_random, quick=700, thorough=30000,
-             rule="sub-commands with random graph constructions and modifiers (gnp, gnm, gnd, glrp, glrm, glrd, regular, plantclique, plantbiclique, addedges, splitedges) and sub-commands that draw random numbers while building (tseitin random*, php M N D, op N d, subsetcard N d, stone --sparse, randkcnf, randkxor, pitfall), each run by cnfgen and pbgen with the same --seed from different states of the global generator; same oracle (<=22 variables compared completely); non-trivial: >=2 rows",
-             required_labels=['random-graph', 'random-family', 'tseitin', 'php', 'kcolor']),
+             rule="sub-commands with random graph constructions and modifiers (gnp, gnm, gnd, glrp, glrm, glrd, regular, plantclique, plantbiclique, addedges, splitedges) and sub-commands that draw random numbers while building (tseitin random*, php M N D, op N d, subsetcard N d, stone --sparse, randkcnf, randkxor, pitfall), a quarter of the cases combine both sources (tseitin random* on a random graph), each run by cnfgen and pbgen with the same --seed from different states of the global generator; same oracle (<=22 variables compared completely); non-trivial: >=2 rows",
+             required_labels=['random-graph', 'random-family', 'two-random-sources', 'tseitin', 'php', 'kcolor']),
     SubCheck('lib', run_lib, strategy=strat_lib, quick=600, thorough=30000,
              rule="every deterministic family of the catalogue through the library with formula_class=CNF and =OPB; same oracle",
              required_labels=['native-cardinality', 'native-equality']),
